@@ -568,8 +568,8 @@ def _rand_table(rng, nfts, kind="table"):
     if kind == "table" and rng.random() < 0.2:
         fmt += ";" + rng.choice(["1:1", "*", "2:0"])
     spec = {"k": kind, "fields": fields, "ft": ftmap, "fmt": fmt if (kind == "rec" or rng.random() < 0.8) else None}
-    if rng.random() < 0.15:
-        spec["gft"] = rng.choice([["id"], ["nm"], ["id", "nm"]])
+    if rng.random() < 0.06:
+        spec["gft"] = rng.choice([["id"], ["nm"], ["id", "nm"]])       # outside the model (oracle only), hence rare
     if kind == "rec":
         spec["rec"] = recs[0]
     else:
@@ -902,8 +902,8 @@ def _threshold_table(rng, kind="table"):
     if kind == "table" and rng.random() < 0.35:
         fmt += ";" + rng.choice(["1:1", "*", "2:0", "0:1", "1:2"])
     spec = {"k": kind, "fields": fields, "ft": ftmap, "fmt": fmt}
-    if rng.random() < 0.4:
-        spec["gft"] = rng.choice([["id"], ["id", "kw"], ["nm"], ["id", "nm", "kw"]])
+    if rng.random() < 0.3:
+        spec["gft"] = rng.choice([["id"], ["id", "kw"], ["nm"], ["id", "nm", "kw"]])      # outside the model (oracle only)
     if kind == "rec":
         spec["rec"] = recs[0]
     else:
@@ -1631,6 +1631,10 @@ def impl_run(case):
                 probe.oom = "probe raised " + SX.exc_name(e)
         ftdefs = [[[li, probe.lits[i].keys[li], {str(mi): d[mi][0] for mi in d}] for li, d in sorted(fd.items())] for i, fd in enumerate(probe.ftdefs)]
         del pw
+        if probe.oom is None and any(o.get("gft") for o in case["objs"]):
+            # FieldType.get_cell_text_len (base class) builds the cell with PALETTE_CLASS(no_color=True): a palette requested
+            # through the GLOBAL configuration in the middle of the width detection -- the model has no such step
+            probe.oom = "plain FieldType() column: width detection requests a no_color palette through the global configuration"
         oom, aliased = probe.oom, probe.aliased
     else:
         progs, ftdefs, oom, aliased = None, None, "extractor: " + extract_error, False
